@@ -27,7 +27,7 @@ RULE = ("each run draws a configuration (lattice/point group, grid or path, stub
         "distinct = distinct (configuration, completion order, sequence of ready subsets) hashes; non-trivial = the "
         "parallel run had at least 2 remote tasks")
 PROBES = ["wait_non_nested", "wait_surplus", "wait_timeout", "straggler", "stalled_task", "wait_all_at_once",
-          "refined_in_parallel", "path_run", "tabgrid_run", "real_run", "runtime_env_checked"]
+          "refined_in_parallel", "path_run", "tabgrid_run", "real_run", "runtime_env_checked", "primed_by_earlier_run"]
 REAL = ["run_grid.run", "run_grid.process", "Grid/GridTetra/Path", "Kpoint classes", "exclude_equiv_points",
         "PointGroup.symmetrize", "ResultDict/EnergyResult/KBandResult/TABresult", "parallel.ray_init*",
         "Data_K_R + static calculators + Tabulators (real runs)"]
@@ -41,7 +41,7 @@ ASSUMPTIONS = [
 ]
 
 
-def _run_once(dec, rec, cfg, parallel, label):
+def _run_once(dec, rec, cfg, parallel, label, prime_cfg=None):
     b = cases.build(cfg)
     clock = VClock()
     ray = SimRay(dec, rec, clock) if parallel else None
@@ -51,6 +51,17 @@ def _run_once(dec, rec, cfg, parallel, label):
     h = Harness(dec, rec, clock=clock, ray=ray)
     out = dict(label=label, livelock=None, exc=None)
     with h:
+        if prime_cfg is not None:
+            # an earlier, unrelated parallel run() in the same process and the same ray session: whatever it leaves behind
+            # (objects put into the object store, module-level state) must not reach the run that is compared
+            try:
+                pb = cases.build(prime_cfg)
+                h.run(pb["system"], pb["grid"], pb["calculators"], parallel=parallel,
+                      fout_name=os.path.join(SCR, "out_prime_" + label), **pb["kwargs"])
+                rec.fire("primed_by_earlier_run")
+            except (SimLivelock, Exception):
+                pass
+            h.obs.__init__()
         try:
             res = h.run(b["system"], b["grid"], b["calculators"], parallel=parallel,
                         fout_name=os.path.join(SCR, "out_" + label), **b["kwargs"])
@@ -116,8 +127,11 @@ def simulate(dec, rec, tier="quick"):
 
 def _simulate(dec, rec, tier):
     cfg = cases.draw_case(dec, big=(tier == "thorough"))
+    prime_cfg = None
+    if dec.chance("cfg/prime", 1, 3):
+        prime_cfg = cases.draw_case(dec, p="cfg2", kinds=("stub_int", "real"), kind_w=(3, 1), max_iter=1)
     ser = _run_once(dec, rec, cfg, False, "serial")
-    par = _run_once(dec, rec, cfg, True, "parallel")
+    par = _run_once(dec, rec, cfg, True, "parallel", prime_cfg=prime_cfg)
     ray = par["ray"]
     sig = hashlib.blake2b((repr(sorted(cases.brief(cfg).items(), key=str)) + ray.schedule_digest()).encode(),
                           digest_size=8).hexdigest()
